@@ -24,13 +24,18 @@ pub fn gen(a: &Args) -> i32 {
         let mut ts = 10u64;
         let mut vctr = 0u64;
         let mut max_ts = 10u64;
+        let mut all_ts: Vec<u64> = vec![];
         for _ in 0..nops {
             let x = r.below(100);
             let k = r.below(nk);
             if x < 45 {
                 ts += r.range(1, 9);
                 max_ts = ts;
-                match r.below(10) {
+                all_ts.push(ts);
+                // cases with compaction use sets and soft deletes only: compaction must then keep every version
+                // (hard deletes / replaces under compaction are the known finding of the per-key stream)
+                let pick = if with_compaction { r.below(7) } else { r.below(10) };
+                match pick {
                     0..=4 => {
                         vctr += 1;
                         writeln!(out, "put {k} {ts} {vctr}").unwrap();
@@ -59,8 +64,10 @@ pub fn gen(a: &Args) -> i32 {
                 let hi = r.range(lo, nk);
                 let tombs = r.below(2);
                 let (ra, rb) = if r.chance(1, 3) {
-                    let a1 = r.range(5, max_ts);
-                    (a1.to_string(), r.range(a1, max_ts + 5).to_string())
+                    // range ends often sit exactly on existing timestamps
+                    let a1 = if !all_ts.is_empty() && r.chance(2, 3) { *r.pick(&all_ts) } else { r.range(5, max_ts) };
+                    let b1 = if r.chance(1, 3) { u64::MAX / 2 } else { r.range(a1, max_ts + 5) };
+                    (a1.to_string(), b1.to_string())
                 } else {
                     ("-".to_string(), "-".to_string())
                 };
@@ -78,6 +85,15 @@ pub fn gen(a: &Args) -> i32 {
                 writeln!(out, "compact").unwrap();
                 st.bump("compact");
             }
+        }
+        if with_compaction {
+            // everything into the tables of the lower level, then a ranged query starting exactly at every timestamp
+            writeln!(out, "flush").unwrap();
+            writeln!(out, "compact").unwrap();
+            for t in all_ts.iter().rev().take(10) {
+                writeln!(out, "hist 0 {nk} 1 {t} {} - {}", u64::MAX / 2, if r.chance(1, 2) { "fwd" } else { "bwd" }).unwrap();
+            }
+            st.bump("ranged_sweep_after_compaction");
         }
         // final complete listings
         writeln!(out, "hist 0 {nk} 1 - - - fwd").unwrap();
@@ -228,9 +244,6 @@ pub fn exec(a: &Args) -> i32 {
                 }
                 Some("flush") => {
                     let Some(t) = tree.as_ref() else { return "bad-op".into() };
-                    if auto_compact {
-                        compacted = true;
-                    }
                     match vs::rotate(t).and_then(|_| vs::flush_immutables(t)) {
                         Ok(()) => "ok".into(),
                         Err(e) => format!("err:{}", e.replace(' ', "_")),
@@ -238,7 +251,6 @@ pub fn exec(a: &Args) -> i32 {
                 }
                 Some("compact") => {
                     let Some(t) = tree.as_ref() else { return "bad-op".into() };
-                    compacted = true;
                     match vs::compact_round(t) {
                         Ok(()) => "ok".into(),
                         Err(e) => format!("err:{}", e.replace(' ', "_")),
@@ -246,9 +258,6 @@ pub fn exec(a: &Args) -> i32 {
                 }
                 Some("reopen") => {
                     let Some(t) = tree.take() else { return "bad-op".into() };
-                    if auto_compact {
-                        compacted = true;
-                    }
                     if let Err(e) = rt.block_on(t.close()) {
                         return en(&e);
                     }
